@@ -415,6 +415,18 @@ PROPS["C17"]["level_text"] += (" Over whole histories (Props/C17Order): when no 
 PROPS["C05"]["harnesses"].append({"name": "walletconc", "pkg": "harness/walletconc", "race": True, "env": {"GORACE": "halt_on_error=1"},
                                   "crash_key": "data-race-or-fatal-error", "replayable": False,
                                   "quick": {"n": 6, "len": 10}, "thorough": {"n": 150, "len": 30}, "search": {"n": 40, "len": 20}})
+# C06 too: concurrent key requests never return one key twice, and the ordinal returned is the key's index
+PROPS["C06"]["harnesses"].append({"name": "walletconc", "pkg": "harness/walletconc", "race": True, "env": {"GORACE": "halt_on_error=1"},
+                                  "crash_key": "data-race-or-fatal-error", "replayable": False,
+                                  "quick": {"n": 6, "len": 10}, "thorough": {"n": 150, "len": 30}, "search": {"n": 40, "len": 20}})
+# C03 too: a keystore created while the passphrase changes is governed by the passphrase in force; and the fault
+# enumeration over passphrase changes (two and three keystores), judged by "one passphrase governs all keystores"
+PROPS["C03"]["harnesses"].append({"name": "walletconc", "pkg": "harness/walletconc", "race": True, "env": {"GORACE": "halt_on_error=1"},
+                                  "crash_key": "data-race-or-fatal-error", "replayable": False,
+                                  "quick": {"n": 6, "len": 10}, "thorough": {"n": 150, "len": 30}, "search": {"n": 40, "len": 20}})
+PROPS["C03"]["harnesses"].append({"name": "walletfaultpass", "pkg": "harness/wallet", "driver": "MassVerif/Driver/Wallet.lean",
+                                  "quick": {"n": 0, "len": 3, "focus": "C03F"}, "thorough": {"n": 6, "len": 5, "focus": "C03F"},
+                                  "search": {"n": 2, "len": 4, "focus": "C03F"}, "timeout": 3000})
 # collector side of C17: what a LocalCollector reports for a qualities task
 PROPS["C17"]["props"].append("MassVerif.Props.C17Collector")
 PROPS["C17"]["drivers_mod"].append("MassVerif.Driver.Collector")
